@@ -174,7 +174,7 @@ def r3_total_order(ctx):
     for a in LEGAL:
         for b in LEGAL:
             def run(fn):
-                it = Interp(fn.body, chain(coll_oracle, std_oracle), [Ref(10001, []), Ref(10002, [])], facts=F, inline=INL)
+                it = Interp(fn.body, chain(coll_oracle, std_oracle), [Ref(10001, [], frame="root"), Ref(10002, [], frame="root")], facts=F, inline=INL)
                 it.extra_env = {10001: so(a), 10002: so(b)}
                 return it.run()
             want = "Less" if a < b else "Greater" if a > b else "Equal"
@@ -206,7 +206,7 @@ def r4_pareto(ctx):
     vecs = [v for ln in range(0, 3) for v in itertools.product((0.0, 1.0), repeat=ln)]
     for a in vecs:
         for b in vecs:
-            it = install(Interp(fn.body, chain(coll_oracle, std_oracle), [Ref(10001, []), Ref(10002, [])], facts=F, inline=INL, max_visits=8))
+            it = install(Interp(fn.body, chain(coll_oracle, std_oracle), [Ref(10001, [], frame="root"), Ref(10002, [], frame="root")], facts=F, inline=INL, max_visits=8))
             it.extra_env = {10001: Agg("adt", MO, "MultiObjective", [Vec("a")]), 10002: Agg("adt", MO, "MultiObjective", [Vec("b")])}
             it.init_state = {"heap": {"a": tuple(a), "b": tuple(b)}, "next_vec": 0}
             if a == b:
